@@ -1,65 +1,156 @@
 import CollectionsC.Properties.C03
-import CollectionsC.Proofs.TreeTableMem
 /-! # C14 (tree table / tree set part): only the configured allocators
 
-In the model every allocation is `Mem.alloc` and every release `Mem.free` on the configured triple;
-`Mem.libc` counts events on the C library allocator.  `libc_invariant`: no call changes it.
-`allocator_independent`: results depend on the ledger only through the allocator's answers
-(`Mem.sched`) — a table on a pool behaves exactly like one on malloc as long as the pool does not
-refuse.  No invariant and no hypothesis on the comparator is needed. -/
+Every table carries the allocator triple it was constructed with (`TreeTable.triple`: `.conf` from
+`cc_treetable_new_conf` with the caller's `mem_alloc/mem_calloc/mem_free`, `.libc` from the default
+constructor `cc_treetable_new`), and every allocation and release of the model goes through
+`Mem.allocT t.triple` / `Mem.freeT t.triple`, as the C code calls `table->mem_alloc` /
+`table->mem_free`.  The ledger keeps the two allocators apart (`live/nalloc/nfree/nrefused/sched` for
+the configured one, `libc/liveLibc/lalloc/lfree` for the C library), so the statements below are
+falsifiable: a model function that allocated with `.libc` on a `.conf` table would violate
+`conf_uses_only_conf`.  The set hands its triple to the table it wraps
+(`cc_treeset_new_conf` passes the same conf on).
+
+`TreeTable.LibcSame m m'` : nothing happened on the C library allocator between `m` and `m'`;
+`TreeTable.ConfSame m m'` : nothing happened on the configured allocator, its schedule included.
+No invariant and no hypothesis on the comparator is needed. -/
 namespace CC.Properties.C14Tree
 open CC CC.Spec CC.Spec.OrdMap
 variable {cmp : Nat → Nat → Int}
 
-theorem new_libc_invariant (m : Mem) : (TreeTable.new m).2.2.libc = m.libc := TreeTable.new_libc m
-theorem destroy_libc_invariant (t : TreeTable) (m : Mem) : (t.destroy m).libc = m.libc := TreeTable.destroy_libc t m
-/-- every call of the table API -/
-theorem libc_invariant (t : TreeTable) (op : Op) (m : Mem) : (t.step cmp op m).2.2.1.libc = m.libc :=
-  TreeTable.step_libc t op m
-/-- every iterator call -/
-theorem iter_libc_invariant (t : TreeTable) (it : TreeIter) (op : IterOp) (m : Mem) :
-    (t.iterStep cmp it op m).2.2.2.libc = m.libc := (TreeTable.iterStep_mem t it op m).libc
-/-- histories and iterator programs -/
-theorem history_libc_invariant (ops : List (Op × List Bool)) (t : TreeTable) (m : Mem) :
-    (t.run cmp ops m).2.2.2.libc = m.libc := TreeTable.run_libc ops t m
-theorem iter_program_libc_invariant (prog : List IterOp) (t : TreeTable) (it : TreeIter) (m : Mem) :
-    (t.iterRun cmp it prog m).2.2.2.libc = m.libc := TreeTable.iterRun_libc prog t it m
+/-- **conf_uses_only_conf**: on a table built with the configured triple no call touches the C library
+allocator — no event, no live block -/
+theorem conf_uses_only_conf (t : TreeTable) (ht : t.triple = .conf) (op : Op) (m : Mem) :
+    TreeTable.LibcSame m (t.step cmp op m).2.2.1 := by
+  have := TreeTable.step_mem (cmp := cmp) t op m
+  rw [ht] at this; exact this.libcSame
 
-/-- two ledgers with the same schedule give the same status, out-value, callback sequence, table and
-comparator count -/
+/-- **default_uses_only_libc**: on a table built by the default constructor no call touches the
+configured allocator (no event, no live block, schedule not consumed), and no refusal is possible -/
+theorem default_uses_only_libc (t : TreeTable) (ht : t.triple = .libc) (op : Op) (m : Mem) :
+    TreeTable.ConfSame m (t.step cmp op m).2.2.1 ∧ (t.step cmp op m).1.st ≠ some .errAlloc := by
+  have s := TreeTable.step_mem (cmp := cmp) t op m
+  rw [ht] at s
+  refine ⟨s.confSame, ?_⟩
+  rcases TreeTable.step_nrefused (cmp := cmp) t op m with ⟨_, b⟩ | ⟨a, _⟩
+  · have := s.confSame.2.2.2.1; omega
+  · exact a
+
+/-- iterator calls (`iter_remove` releases a node) -/
+theorem iter_conf_uses_only_conf (t : TreeTable) (ht : t.triple = .conf) (it : TreeIter) (op : IterOp) (m : Mem) :
+    TreeTable.LibcSame m (t.iterStep cmp it op m).2.2.2 := by
+  have := TreeTable.iterStep_mem (cmp := cmp) t it op m
+  rw [ht] at this; exact this.libcSame
+theorem iter_default_uses_only_libc (t : TreeTable) (ht : t.triple = .libc) (it : TreeIter) (op : IterOp) (m : Mem) :
+    TreeTable.ConfSame m (t.iterStep cmp it op m).2.2.2 := by
+  have := TreeTable.iterStep_mem (cmp := cmp) t it op m
+  rw [ht] at this; exact this.confSame
+
+/-- the constructors use the triple they are given for the header and the sentinel, and the new table
+remembers it; the destructor releases everything through the table's triple -/
+theorem new_conf_uses_only_conf (m : Mem) : TreeTable.LibcSame m (TreeTable.new m).2.2 :=
+  TreeTable.newT_conf_libcSame m
+theorem new_default_uses_only_libc (m : Mem) :
+    TreeTable.ConfSame m (TreeTable.newT .libc m).2.2 ∧ (TreeTable.newT .libc m).1 = .ok := TreeTable.newT_libc m
+theorem new_remembers_triple (tr : Triple) (m : Mem) (t : TreeTable) (m' : Mem)
+    (h : TreeTable.newT tr m = (.ok, some t, m')) : t.triple = tr := TreeTable.newT_triple tr m t m' h
+theorem destroy_uses_own_triple (t : TreeTable) (m : Mem) :
+    (t.triple = .conf → TreeTable.LibcSame m (t.destroy m)) ∧
+    (t.triple = .libc → TreeTable.ConfSame m (t.destroy m)) := TreeTable.destroy_mem t m
+
+/-- the triple never changes during the life of a table -/
+theorem triple_is_kept (t : TreeTable) (op : Op) (m : Mem) : (t.step cmp op m).2.1.triple = t.triple :=
+  TreeTable.step_triple t op m
+theorem history_triple_is_kept (ops : List (Op × List Bool)) (t : TreeTable) (m : Mem) :
+    (t.run cmp ops m).2.2.1.triple = t.triple := TreeTable.run_triple ops t m
+
+/-- histories: a table on the configured triple leaves the C library's counters alone, a table on the C
+library's triple leaves the configured allocator's live count alone -/
+theorem history_conf_uses_only_conf (ops : List (Op × List Bool)) (t : TreeTable) (m : Mem) (ht : t.triple = .conf) :
+    (t.run cmp ops m).2.2.2.libc = m.libc ∧ (t.run cmp ops m).2.2.2.liveLibc = m.liveLibc :=
+  TreeTable.run_conf ops t m ht
+theorem history_default_uses_only_libc (ops : List (Op × List Bool)) (t : TreeTable) (m : Mem) (ht : t.triple = .libc) :
+    (t.run cmp ops m).2.2.2.live = m.live := TreeTable.run_libc ops t m ht
+theorem iter_program_conf_uses_only_conf (prog : List IterOp) (t : TreeTable) (it : TreeIter) (m : Mem)
+    (ht : t.triple = .conf) : TreeTable.LibcSame m (t.iterRun cmp it prog m).2.2.2 :=
+  TreeTable.iterRun_conf prog t it m ht
+
+/-- **allocator_independent**: two ledgers with the same schedule give the same status, out-value,
+callback sequence, table and comparator count — a table on a pool behaves exactly like one on malloc as
+long as the pool does not refuse -/
 theorem allocator_independent (t : TreeTable) (op : Op) (m m' : Mem) (h : m.sched = m'.sched) :
     (t.step cmp op m).1 = (t.step cmp op m').1 ∧ (t.step cmp op m).2.1 = (t.step cmp op m').2.1 ∧
     (t.step cmp op m).2.2.2 = (t.step cmp op m').2.2.2 := TreeTable.step_congr t op m m' h
-theorem new_allocator_independent (m m' : Mem) (h : m.sched = m'.sched) :
-    (TreeTable.new m).1 = (TreeTable.new m').1 ∧ (TreeTable.new m).2.1 = (TreeTable.new m').2.1 :=
-  TreeTable.new_congr m m' h
+theorem new_allocator_independent (tr : Triple) (m m' : Mem) (h : m.sched = m'.sched) :
+    (TreeTable.newT tr m).1 = (TreeTable.newT tr m').1 ∧ (TreeTable.newT tr m).2.1 = (TreeTable.newT tr m').2.1 :=
+  TreeTable.newT_congr tr m m' h
 /-- iterator calls do not depend on the ledger at all -/
 theorem iter_allocator_independent (t : TreeTable) (it : TreeIter) (op : IterOp) (m m' : Mem) :
     (t.iterStep cmp it op m).1 = (t.iterStep cmp it op m').1 ∧
     (t.iterStep cmp it op m).2.1 = (t.iterStep cmp it op m').2.1 ∧
     (t.iterStep cmp it op m).2.2.1 = (t.iterStep cmp it op m').2.2.1 := TreeTable.iterStep_congr t it op m m'
-/-- a whole history (every call with its own schedule) gives the same outputs, comparator counts and
-final table from any two ledgers -/
+/-- a whole history gives the same outputs, comparator counts and final table from any two ledgers.
+(No hypothesis on `m.sched`: every call of a history installs its own schedule with `Mem.begin`, the
+incoming one is overwritten.) -/
 theorem history_allocator_independent (ops : List (Op × List Bool)) (t : TreeTable) (m m' : Mem) :
     (t.run cmp ops m).1 = (t.run cmp ops m').1 ∧ (t.run cmp ops m).2.1 = (t.run cmp ops m').2.1 ∧
     (t.run cmp ops m).2.2.1 = (t.run cmp ops m').2.2.1 := TreeTable.run_congr ops t m m'
 
-/-! ## tree set (the wrapped table is built and released through the same triple) -/
+/-! ## tree set: the wrapped table inherits the set's triple -/
 
-theorem set_new_libc_invariant (m : Mem) : (TreeSet.new m).2.2.libc = m.libc := TreeSet.new_libc m
-theorem set_destroy_libc_invariant (s : TreeSet) (m : Mem) : (s.destroy m).libc = m.libc := TreeSet.destroy_libc s m
-theorem set_libc_invariant (s : TreeSet) (op : OrdSet.Op) (m : Mem) : (s.step cmp op m).2.2.1.libc = m.libc :=
-  TreeSet.step_libc s op m
-theorem set_history_libc_invariant (ops : List (OrdSet.Op × List Bool)) (s : TreeSet) (m : Mem) :
-    (s.run cmp ops m).2.2.2.libc = m.libc := TreeSet.run_libc ops s m
-theorem set_iter_program_libc_invariant (prog : List IterOp) (s : TreeSet) (it : TreeIter) (m : Mem) :
-    (s.iterRun cmp it prog m).2.2.2.libc = m.libc := by
-  rw [(TreeSet.iterRun_eq_table (cmp := cmp) prog s it m).2.2]; exact TreeTable.iterRun_libc prog s.t it m
+/-- **derived_inherits_triple**: `cc_treeset_new_conf` hands the conf it was given to
+`cc_treetable_new_conf`: header of the set, header and sentinel of the table are on one triple, and
+it stays that way -/
+theorem set_inherits_triple (tr : Triple) (m : Mem) (s : TreeSet) (m' : Mem)
+    (h : TreeSet.newT tr m = (.ok, some s, m')) : s.triple = tr ∧ s.t.triple = tr :=
+  TreeSet.newT_triple tr m s m' h
+theorem set_triple_is_kept (s : TreeSet) (op : OrdSet.Op) (m : Mem) :
+    (s.step cmp op m).2.1.triple = s.triple ∧ (s.step cmp op m).2.1.t.triple = s.t.triple :=
+  TreeSet.step_triple s op m
+theorem set_new_conf_uses_only_conf (m : Mem) : TreeTable.LibcSame m (TreeSet.new m).2.2 :=
+  TreeSet.newT_conf_libcSame m
+theorem set_new_default_uses_only_libc (m : Mem) :
+    TreeTable.ConfSame m (TreeSet.newT .libc m).2.2 ∧ (TreeSet.newT .libc m).1 = .ok := TreeSet.newT_libc m
+theorem set_destroy_uses_own_triple (s : TreeSet) (m : Mem) (hs : s.t.triple = s.triple) :
+    (s.triple = .conf → TreeTable.LibcSame m (s.destroy m)) ∧
+    (s.triple = .libc → TreeTable.ConfSame m (s.destroy m)) := TreeSet.destroy_mem s m hs
+theorem set_conf_uses_only_conf (s : TreeSet) (ht : s.t.triple = .conf) (op : OrdSet.Op) (m : Mem) :
+    TreeTable.LibcSame m (s.step cmp op m).2.2.1 := by
+  have := TreeSet.step_mem (cmp := cmp) s op m
+  rw [ht] at this; exact this.libcSame
+theorem set_default_uses_only_libc (s : TreeSet) (ht : s.t.triple = .libc) (op : OrdSet.Op) (m : Mem) :
+    TreeTable.ConfSame m (s.step cmp op m).2.2.1 := by
+  have := TreeSet.step_mem (cmp := cmp) s op m
+  rw [ht] at this; exact this.confSame
+theorem set_history_conf_uses_only_conf (ops : List (OrdSet.Op × List Bool)) (s : TreeSet) (m : Mem)
+    (ht : s.t.triple = .conf) :
+    (s.run cmp ops m).2.2.2.libc = m.libc ∧ (s.run cmp ops m).2.2.2.liveLibc = m.liveLibc :=
+  TreeSet.run_conf ops s m ht
+theorem set_history_default_uses_only_libc (ops : List (OrdSet.Op × List Bool)) (s : TreeSet) (m : Mem)
+    (ht : s.t.triple = .libc) : (s.run cmp ops m).2.2.2.live = m.live := TreeSet.run_libc ops s m ht
 theorem set_allocator_independent (s : TreeSet) (op : OrdSet.Op) (m m' : Mem) (h : m.sched = m'.sched) :
     (s.step cmp op m).1 = (s.step cmp op m').1 ∧ (s.step cmp op m).2.1 = (s.step cmp op m').2.1 ∧
     (s.step cmp op m).2.2.2 = (s.step cmp op m').2.2.2 := TreeSet.step_congr s op m m' h
 theorem set_history_allocator_independent (ops : List (OrdSet.Op × List Bool)) (s : TreeSet) (m m' : Mem) :
     (s.run cmp ops m).1 = (s.run cmp ops m').1 ∧ (s.run cmp ops m).2.1 = (s.run cmp ops m').2.1 ∧
     (s.run cmp ops m).2.2.1 = (s.run cmp ops m').2.2.1 := TreeSet.run_congr ops s m m'
+
+/-! ## Non-vacuity: the two halves of the ledger really move separately -/
+open CC.Driver.TreeTableD (cmpOf) in
+/-- a set on the configured triple: refusals are possible, only `live` moves -/
+example :
+    (match TreeSet.newT .conf { live := 4, liveLibc := 9 } with
+     | (.ok, some a, ma) =>
+       let ra := a.run (cmpOf 0) [(.add 5, []), (.add 6, [true]), (.remove 5, [])] ma
+       (ra.1.map (·.st), ra.2.2.2.live, ra.2.2.2.liveLibc, (a.destroy ma).live)
+     | _ => ([], 0, 0, 0)) = ([some .ok, some .errAlloc, some .ok], 7, 9, 4) := by decide
+open CC.Driver.TreeTableD (cmpOf) in
+/-- the same history on the C library's triple: no refusal, only `liveLibc` moves -/
+example :
+    (match TreeSet.newT .libc { live := 4, liveLibc := 9 } with
+     | (.ok, some b, mb) =>
+       let rb := b.run (cmpOf 0) [(.add 5, []), (.add 6, [true]), (.remove 5, [])] mb
+       (rb.1.map (·.st), rb.2.2.2.live, rb.2.2.2.liveLibc, (b.destroy mb).liveLibc)
+     | _ => ([], 0, 0, 0)) = ([some .ok, some .ok, some .ok], 4, 13, 9) := by decide
 
 end CC.Properties.C14Tree
